@@ -1053,3 +1053,28 @@ def net_ef(I, g):
     sum over the jobs of up of the data they transfer for up at hour t   (each (job, usage pattern) pair once)"""
     gh = net_ghosts(I, g.o)
     return gh["total"].at(gh["ups"].n)
+
+
+# =====================================================================================================================
+# System  (C02: every component exactly once)
+# =====================================================================================================================
+def _sys_fold(I, g, lst_attr, attr):
+    lst = g.lst(lst_attr)
+    return FoldMV(I, f"system.{lst_attr}.{attr}", lambda j: mv_of(I.model_getattr(lst.elem(j), attr)), W.MASS), lst
+
+
+@update("System", "update_total_footprint")
+def sys_total(I, g):
+    """total(t) = round_4( sum over servers, storages, usage patterns of (fabrication + energy footprint)(t) + sum over networks of
+    energy footprint(t) ), each collection being duplicate free (set-derived), every object once"""
+    parts = []
+    for la, attrs in (("servers", ("instances_fabrication_footprint", "energy_footprint")), ("storages", ("instances_fabrication_footprint", "energy_footprint")),
+                      ("networks", ("energy_footprint",)), ("usage_patterns", ("instances_fabrication_footprint", "energy_footprint"))):
+        for a in attrs:
+            f, lst = _sys_fold(I, g, la, a)
+            parts.append(f.at(lst.n))
+    I.require("a system has at least one usage pattern", g.lst("usage_patterns").n >= 1)
+    tot = parts[0]
+    for p_ in parts[1:]: tot = mv_add(tot, p_)
+    kgf = I.units.literal("kg").f
+    return mv_map(tot, lambda x: I.round_term(x / kgf, PyNum(z3.IntVal(4))) * kgf, W.MASS)
